@@ -7,6 +7,7 @@
 package pfcpiface
 
 import (
+	"os"
 	"encoding/json"
 	"fmt"
 	"strings"
@@ -60,6 +61,10 @@ func (e *c08Env) entriesFor(cs c08Case, sdf, app string) (entries []*fbPDR, acce
 		}
 	}
 	e.sys.exec(&sessReq{sReq: sReq{Kind: kDel, Conn: 0}, Sess: ctx.newSess.Idx})
+	// this instance lives for hundreds of thousands of cases: the fake's command log is not needed here
+	e.sys.in.fb.mu.Lock()
+	e.sys.in.fb.log = e.sys.in.fb.log[:0]
+	e.sys.in.fb.mu.Unlock()
 	return entries, true, ""
 }
 
@@ -121,7 +126,13 @@ func (e *c08Env) checkInline(cs c08Case) {
 		res.outcome(fmt.Sprintf("malformed-accepted=%v", accepted))
 		if accepted {
 			if v := c08Compare(entries, ueOnly); v != "" {
-				res.finding("c08:malformed-yields-filter:"+dir, fmt.Sprintf("malformed description %q is neither refused nor ignored: %s", cs.Desc, v), cs)
+				diag := ""
+				if os.Getenv("VERIF_C08_DIAG") != "" {
+					e2, a2, _ := e.entriesFor(cs, cs.Desc, "")
+					_, perr2 := parseFlowDesc(cs.Desc, cs.UE)
+					diag = fmt.Sprintf(" [diag: n=%d total-entries=%d again: accepted=%v entries=%d direct-parse-err=%v assoc=%q gone=%v steps=%d]", e.n, len(e.sys.in.fb.pdrList()), a2, len(e2), perr2, e.sys.m.Assoc[0], e.sys.m.Gone[0], e.sys.steps)
+				}
+				res.finding("c08:malformed-yields-filter:"+dir, fmt.Sprintf("malformed description %q is neither refused nor ignored: %s%s", cs.Desc, v, diag), cs)
 			}
 		}
 	case !box.strict:
